@@ -29,8 +29,8 @@ func (lo *LoadOpts) length() *int {
 	if lo.Length != nil || lo.NoExplicit {
 		return lo.Length
 	}
-	if atomic.AddInt64(&explicitAll, 1)%3 == 0 {
-		m := -1
+	if k := atomic.AddInt64(&explicitAll, 1); k%3 == 0 {
+		m := []int{-1, -1, -2, -100}[(k/3)%4] // any negative length means "everything"
 		return &m
 	}
 	return nil
